@@ -265,9 +265,19 @@ func cmdCheck(o opts, prop, tier string) int {
 	for _, m := range e.specErrors {
 		engineErrs = append(engineErrs, "spec: "+m)
 	}
+	for _, k := range loadKnown(o.verif) {
+		if k.Status != "known" {
+			continue
+		}
+		for _, ob := range sel {
+			if ob.ID == k.Obligation || stripOrdinal(ob.ID) == k.Obligation {
+				ob.NoRetry = true
+			}
+		}
+	}
 	qdir := filepath.Join(o.out, "work", prop)
 	os.RemoveAll(qdir)
-	solveAll(sel, qdir, timeout, tier == "thorough", 6)
+	solveAll(sel, qdir, timeout, tier == "thorough", 5)
 	return report(o, e, prop, tier, seed, sel, frames, engineErrs, time.Since(t0).Seconds(), timeout)
 }
 
